@@ -17,6 +17,7 @@ pub fn run(stim: &Value, rec: &Rec) {
     let lazy = stim["lazy"].as_bool().unwrap_or(true);
     let ncalls = stim["calls"].as_u64().unwrap_or(5);
     let stim_ct = stim["connect_timeout"].as_bool().unwrap_or(false);
+    let stim_opts: Vec<String> = stim["ep_opts"].as_array().map(|a| a.iter().filter_map(|x| x.as_str().map(|s| s.to_string())).collect()).unwrap_or_default();
     let stim_kinds: Vec<String> = stim["fail_kinds"].as_array().map(|a| a.iter().filter_map(|x| x.as_str().map(|s| s.to_string())).collect()).unwrap_or_default();
     let env = Arc::new(Mutex::new(Env { script, pos: 0, consumed: vec![], kills: vec![], invocations: 0 }));
     let log = rec.clone();
@@ -58,6 +59,16 @@ pub fn run(stim: &Value, rec: &Rec) {
         let mut ep = tonic::transport::Endpoint::from_static("http://peer.test");
         // stim.connect_timeout: a connect timeout is configured (virtual time: it never fires, the scripted connector answers at once)
         if stim_ct { ep = ep.connect_timeout(Duration::from_secs(5)); }
+        // stim.ep_opts: other endpoint options that add tower layers around the connection (they must not change what a call observes)
+        for o in stim_opts.iter() {
+            match o.as_str() {
+                "concurrency_limit" => { ep = ep.concurrency_limit(2); }
+                "rate_limit" => { ep = ep.rate_limit(1000, Duration::from_millis(1)); }
+                "user_agent" => { ep = ep.user_agent("lab-agent/1").expect("user agent"); }
+                "buffer_size" => { ep = ep.buffer_size(1); }
+                _ => {}
+            }
+        }
         let ch = if lazy { Ok(ep.connect_with_connector_lazy(connector)) } else { ep.connect_with_connector(connector).await };
         let consumed0 = std::mem::take(&mut env.lock().unwrap().consumed);
         let ch = match ch {
